@@ -1230,6 +1230,75 @@ func c13WildLinkCase(r *Rng, c15 bool) (Sx, string) {
 	return L(fields...), cls
 }
 
+// ---- backslash escapes in wildcard sources; names that contain [ * ? \ literally ----
+var c13OddNames = []string{"[ab", "[", "x?z", "xyz", "x?", "a*", "a*b", "ab", "\\", "\\x", "a\\*", "*", "?", "[a]", "a", "x??"}
+
+func c13EscapeCase(r *Rng, c15 bool) (Sx, string) {
+	mk := func(nm string) *MNode {
+		if r.Chance(30) {
+			return c13DirOf(nm, r, c13Node("file", Pick(r, c13OddNames), r, ""), c13Node("file", "f", r, ""))
+		}
+		return c13Node(Pick(r, []string{"file", "file", "link", "fifo"}), nm, r, "")
+	}
+	pickNames := func(k int) []string {
+		seen := map[string]bool{}
+		var out []string
+		for len(out) < k {
+			nm := Pick(r, c13OddNames)
+			if !seen[nm] {
+				seen[nm] = true
+				out = append(out, nm)
+			}
+		}
+		sort.Strings(out)
+		return out
+	}
+	var roots []*MNode
+	for _, nm := range pickNames(3 + r.Intn(5)) {
+		roots = append(roots, mk(nm))
+	}
+	var sub []*MNode
+	for _, nm := range pickNames(2 + r.Intn(4)) {
+		sub = append(sub, mk(nm))
+	}
+	roots = append(roots, c13DirOf("sub", r, sub...))
+	sort.Slice(roots, func(i, j int) bool { return roots[i].Name < roots[j].Name })
+	// an escaped metacharacter followed by real wildcards, escapes only, escaped backslash, plain
+	pats := []string{"\\[*", "x\\??", "\\[", "a\\*", "a\\**", "\\**", "\\??", "\\?", "\\\\*", "\\\\", "\\[a]", "\\[a*", "x\\?z", "x\\?*",
+		"*\\*", "*\\?*", "a\\*b", "?\\?", "\\a*", "x??", "*", "[a]", "a*\\", "\\x?z", "x\\??z"}
+	p := Pick(r, pats)
+	src := p
+	switch r.Intn(4) {
+	case 0:
+		src = "sub/" + p
+	case 1:
+		src = p + "/" + Pick(r, []string{"*", "f", Pick(r, pats)})
+	}
+	o := c13Opts{umask: 022, wild: r.Chance(85)}
+	ocls := "none"
+	if r.Chance(25) {
+		w := o.wild
+		o, ocls = c13GenOptsIndep(r, c15)
+		o.wild = w
+	}
+	if c15 && r.Chance(40) {
+		o.replace = true
+	}
+	var dv []*MNode
+	if c15 {
+		dv = []*MNode{c13DirOf("n", r, c13Node(Pick(r, []string{"file", "dir"}), Pick(r, c13OddNames), r, ""))}
+	}
+	dst := Pick(r, []string{"/", "n", "n/"})
+	return L(ViewSx(roots), ViewSx(dv), S(src), S(dst), o.Sx(), Bool(c15)), "escapes/" + ocls
+}
+
+func c13Escapes(g *Gen, kind uint64, c15 bool, n int) {
+	for i := 0; i < n; i++ {
+		in, cls := c13EscapeCase(g.Rng, c15)
+		g.Emit(kind, in, true, cls)
+	}
+}
+
 func c13WildLinks(g *Gen, kind uint64, c15 bool, n int) {
 	for i := 0; i < n; i++ {
 		in, cls := c13WildLinkCase(g.Rng, c15)
@@ -1380,6 +1449,7 @@ func genC13(g *Gen) {
 	c13DirectedModes(g)
 	c13Big(g)
 	c13WildLinks(g, 0x1301, false, g.Vol(150, 3000))
+	c13Escapes(g, 0x1301, false, g.Vol(200, 4000))
 	c13Collide(g, 0x1301, false, g.Vol(100, 2000))
 	n := g.Vol(1500, 30000)
 	for i := 0; i < n; i++ {
@@ -1416,6 +1486,7 @@ func genC15(g *Gen) {
 	c15Directed(g)
 	c13Collide(g, 0x1501, true, g.Vol(250, 5000))
 	c13WildLinks(g, 0x1501, true, g.Vol(150, 3000))
+	c13Escapes(g, 0x1501, true, g.Vol(250, 5000))
 	c15Filtered(g, g.Vol(300, 6000))
 	n := g.Vol(1500, 30000)
 	for i := 0; i < n; i++ {
